@@ -707,6 +707,8 @@ def probes():
         ({"fn": "mean", "desc": "(a + b)", "shapes": [(5,)], "kwargs": {"a": 2}}, "concat"),
         ({"fn": "id", "desc": "(a + b) -> a", "shapes": [(5,)], "kwargs": {"a": 2}}, "concat"),
         ({"fn": "id", "desc": "a, b -> (a + b + c)", "shapes": [(2,), (3,)]}, "concat"),
+        # the zero-size shortcut of the *_at operations returns the first tensor before the description is looked at
+        ({"fn": "set_at", "desc": "b [h] c, p [1], p c -> b [h] c )(", "shapes": [(2, 5, 3), (0, 1), (0, 3)], "dtypes": ["float64", "int64", "float64"]}, "zero-size-shortcut"),
         ({"fn": "solve_shapes", "desc": "a b, ", "shapes": [(2, 3)]}, "solve-count"),
         ({"fn": "solve_axes", "desc": "a -> b", "shapes": [(2,)]}, "solve-arrow"),
         ({"fn": "matches", "desc": "a -> b", "shapes": [(2,)]}, "solve-arrow"),
@@ -715,7 +717,8 @@ def probes():
     for ex, label in P:
         ex.setdefault("kwargs", {})
         ex.setdefault("dtypes", ["float64"] * len(ex["shapes"]))
-        out.append((ex, False, "P:" + label))
+        # the description of this probe has an unbalanced parenthesis: ill-formed by construction, clause (b) applies
+        out.append((ex, label == "zero-size-shortcut", "P:" + label))
     # the C12 probes (parser extremes) through every stream-B entry point
     for s in c12.PROBES:
         for ex in examples_for_string(s, OPS_B + ["set_at"], 1):
